@@ -40,7 +40,7 @@ CLAIMED = {
  'C02': ("PARTIAL. The full statement (the numerically solved g, S, c converge to the Wertheim-Thiele / dilute-limit functions with an error <= const*dr) is NOT proved: it needs a stability analysis of the "
          "discretised non-linear integral equation for which Mathlib has no theory; that part is validated numerically. Proved (Lean, all named ..._partial): rank1_oz_partial and rank1_from_cost_partial (what a "
          "one-component cost evaluation stores satisfies h(1 - rho omega c) = omega c omega, S(1 - rho omega c) = omega: pins site vs pair density and the sign conventions of c and gamma), "
-         "dilute_fixed_point_partial / dilute_gamma_zero_partial (Filter.Tendsto as rho -> 0: gamma = 0 is the fixed point), dilute_closures_partial (there g = e^{-u/kT} for PY/HNC, 1 - u/kT for MSA, 0 inside a "
+         "dilute_fixed_point_partial / dilute_gamma_zero_partial (Filter.Tendsto as rho -> 0: gamma = 0 is the fixed point), dilute_gamma_order_rho_partial (|h - c| <= 2 rho c^2 for rho|c| <= 1/2: the self-consistency function at gamma = 0 is O(rho), checked on the implementation for densities down to 1e-20), dilute_closures_partial (there g = e^{-u/kT} for PY/HNC, 1 - u/kT for MSA, 0 inside a "
          "flagged core), b2_riemann_partial (the reported -h(k0)/2 is the Riemann sum of -2 pi Int f r^2 dr up to sin(k0 s)/(k0 s)), wertheim_contact_consistent_partial (-c(1^-) = (1+eta/2)/(1-eta)^2) and wertheim_compressibility_consistent_partial (1 - 24 eta Int_0^1 c r^2 dr = (1+2 eta)^2/(1-eta)^4 = 1/S(0), a "
          "kernel-checked interval integral): the reference values the harness compares against are mutually consistent. Validation runs on the implementation: PY hard spheres eta = 0.05..0.45 on refinement "
          "families (contact value, S(k), S(0), c(r) against the references evaluated by the Lean driver, |error| <= K(eta)*dr on every member), every shipped potential x {PY, HNC, MSA} in the dilute limit "
@@ -62,9 +62,9 @@ CLAIMED = {
          "tracer fractions and diblock halves next to a solvent, energy scale 1e-2..1e2 with kT via constructor or assignment) and on converged solves; the reformulated systems also go through the Lean model.",
          "4 C04", "Lean 4 proof (equivariance / lifting of the whole cost evaluation: matrix conjugation, block algebra, DST inverse, homogeneity) + metamorphic differential checks"),
  'C05': ("Lean theorems about a statement-for-statement model of the seven calculate functions (Model/Calculate.lean), for every rank, every flag value and arrays stored in either space: "
-         "pair_correlation_def (h+1), pmf_def (-kT ln g), structure_factor_def (rho_pair h + Omega, /rho_site when normalised), second_virial_def, chi_def with chi_weights (linear in C with weights "
+         "pair_correlation_def (h+1), pmf_def (-kT ln g, claimed where g > 0: Real.log is totalised; +inf at g = 0 and nan below are compared on the implementation), structure_factor_def (rho_pair h + Omega, /rho_site when normalised), second_virial_def, chi_def with chi_weights (linear in C with weights "
          "1/R : R : -2, prefactor independent of C) and chi_equal_volumes ((rho/2)(Caa+Cbb-2Cab)), spinodal_def with spinodal_is_det (the eight-term expression = det(1 - Omega C) of the pair's symmetric "
-         "2x2 block, every pair a<b of any rank; Matrix.det_fin_two), solvation_def (-kT CSC / -kT ln(1+CSC) with S as returned by structure_factor), extrapolate_is_quadratic (value at 0 of every quadratic "
+         "2x2 block, every pair a<b of any rank; Matrix.det_fin_two), solvation_def (-kT CSC / -kT ln(1+CSC) with S as returned by structure_factor; the PY form where 1+CSC > 0), extrapolate_is_quadratic (value at 0 of every quadratic "
          "through the three points) and extrap0_grid (= 3y0 - 3y1 + y2 on the Domain grid), sf_of_selfconsistent and sf_after_cost ((1 - Omega C) S = Omega for the structure factor returned after ANY cost evaluation), structure_factor_symmetric, pair_correlation_symmetric, (a,b) = (b,a) for the tables, "
          "chi_refused_rank_one, ensureFourier/ensureReal_total (no call is refused because of the space). The model is compared call by call with the real functions on rank 1-4 objects; an independent "
          "NumPy transcription of the definitions is evaluated on the implementation.",
@@ -105,7 +105,7 @@ CLAIMED = {
  'C11': ("Lean theorems about the omega model: closed_form_is_pair_sum (all N >= 1, E != 1), gaussian_E_pos_lt_one, fjc_E_lt_one, gaussian/fjc_is_pair_sum (every k > 0), "
          "omega_le_N, gaussian/fjc_le_N, gaussian_tendsto_N, gaussian_tendsto_one, fjc_tendsto_N (Filter.Tendsto), ring_is_pair_sum, ring_le_N, ring_at_zero, singleSite_one, "
          "noIntra_zero; PARTIAL for Koyama/NFJC (kernels are parameters): koyama_is_pair_sum_partial, koyama_le_N_partial, koyama_limit_values_partial, nfjc_is_pair_sum_partial, "
-         "koyama_ctor_ok_iff / koyama_lpmin_pos / koyama_params_ok (the constructor's accept/reject decision and the derived parameters of an accepted chain), and the negation witness koyama_shipped_limit for the repaired loop defect; float cancellation of the closed form at small k is outside the reals (known finding F10). "
+         "koyama_ctor_ok_iff / koyama_lpmin_pos / koyama_params_ok, koyama_lpmin_units / koyama_decisions_unit_free (the same chain in other units of length is accepted alike and takes the same bending-energy branch) (the constructor's accept/reject decision and the derived parameters of an accepted chain), and the negation witness koyama_shipped_limit for the repaired loop defect; float cancellation of the closed form at small k is outside the reals (known finding F10). "
          "The model is compared with every class/alias on log grids and real Domain k grids; the long-double pair sum, finiteness, <= N, limits, element-wise and ValueError "
          "predicates are evaluated on the implementation.",
          "4 C11", "Lean 4 proof (induction, geometric sums, limits) + differential correspondence; partial for Koyama/NFJC kernels"),
@@ -126,7 +126,7 @@ CLAIMED = {
  'C18': ("Lean theorems about the Debyer model (Model/Debyer.lean: _chunk, the row-per-thread accumulation, gather, rescale, frame average), over the reals for EVERY number of chunks, sites, molecules, frames and every box: "
          "chunk_rows_partition / chunk_rows_cover_once (the rows of _chunk(n, c) cover every index exactly once, also for c > n), chunk_refused_iff, gathered_eq, chunk_count_independent and debyer_chunk_count_independent "
          "(the result does not depend on the number of chunks), cross_is_debye_sum (1/(N_a+N_b) sum over intramolecular pairs of Mathlib's Real.sinc(k r)), self_is_debye_sum (1 + 1/N sum over i != j; the loops visit i < j and double) and "
-         "self_is_full_double_sum (the i = j terms are the Kronecker delta), debyer_is_frame_average, cross/self_order_independent (any permutation of the sites), miComp_nearest_image (the folded separation is the distance to the NEAREST "
+         "self_is_full_double_sum (the i = j terms are the Kronecker delta), debyer_is_frame_average, cross/self_order_independent (any permutation of the sites), cross_swap_symmetric (omega_ab = omega_ba), miComp_nearest_image (the folded separation is the distance to the NEAREST "
          "periodic image for every separation and box) with the negation witness miCompShipped_not_nearest and miComp_eq_shipped for the repaired rule; and for ANY scalar type (also the Float the driver executes): schedule_row, "
          "schedule_independent, stream_gives_chunkAcc, any_interleaving_gives_chunkAcc (every interleaving of the per-chunk update streams leaves the model's chunk sums in the shared table: thread count and timing cannot change what is gathered). "
          "PARTIAL where the truth is in the runtime: float32 rounding is compared through an error bound computed from the terms, and the OpenMP runtime itself (a data race introduced by a code change) is outside any executable model; it is sampled with 1-8 "
